@@ -180,7 +180,7 @@ Section Agree.
   Variable bi : list ident.
   Variable inh : path -> ident -> option binding.
   Variable init call : ident.
-  Variable meths : list (path * ident * bool).
+  Variable meths : list (path * option ident * (bool * bool)).
   Variable kwlike : N -> bool.
   Hypothesis Hfrag : in_fragment_C15 p = true.
 
@@ -220,7 +220,7 @@ Section Agree.
 
   Theorem pyname_agrees t :
     core t = true ->
-    tok_ok bi inh rt kwlike t = true ->
+    tok_ok bi inh rt meths kwlike t = true ->
     pn t = pn_of rt (spec_binding bi st t) (t_name t).
   Proof.
     intros Hc Hok. unfold tok_ok in Hok. apply andb_prop in Hok as [Q R].
@@ -236,7 +236,7 @@ Section Agree.
       destruct (kwlike (t_id t)); [|now apply plain_env].
       destruct (defname_at bi inh rt (removelast (t_env t)) fname) as [| b y i | | |] eqn:D; try discriminate.
       cbn [fun_of_pn].
-      destruct (fun_of rt b fname) as [F| | |] eqn:Ff; try discriminate.
+      destruct (fun_of rt meths b fname) as [F| | |] eqn:Ff; try discriminate.
       apply andb_prop in R as [PF EN]. apply path_eqb_eq in PF. subst F.
       cbn [kw_branch]. unfold param_of.
       unfold entry_at in EN.
@@ -296,7 +296,7 @@ Section WF.
   Variable inh : path -> ident -> option binding.
   Variable rt : rscope.
   Variable init call : ident.
-  Variable meths : list (path * ident * bool).
+  Variable meths : list (path * option ident * (bool * bool)).
   Variable kwlike : N -> bool.
 
   Lemma pn_of_wf b x : pn_wf rt (pn_of rt b x).
@@ -316,11 +316,11 @@ Section WF.
     - apply pn_of_wf.
     - destruct (is_class (rk s)); cbn; auto.
   Qed.
-  Lemma kw_branch_wf c x r : kw_branch inh rt init call c x = Some r -> pn_wf rt r.
+  Lemma kw_branch_wf c x r : kw_branch inh rt init call meths c x = Some r -> pn_wf rt r.
   Proof.
     unfold kw_branch. destruct c as [F|K| |].
     - intros H. inversion H. apply param_of_wf.
-    - destruct (init_of inh rt init call K); intros H; inversion H; cbn; auto. apply param_of_wf.
+    - destruct (init_of inh rt init call meths K); intros H; inversion H; cbn; auto. apply param_of_wf.
     - discriminate.
     - intros H. inversion H. cbn. auto.
   Qed.
@@ -346,7 +346,7 @@ Section WF.
       destruct (rope_lookup bi inh rt (t_hold t) b) as [o| |]; try exact I.
       destruct (entry_at rt (BScope o) b) as [k|]; try exact I.
       destruct k; try exact I.
-      + destruct (fun_of rt (BScope o) b); try exact I. apply pn_opt_wf.
+      + destruct (fun_of rt meths (BScope o) b); try exact I. apply pn_opt_wf.
       + destruct (is_self meths o b) as [[|]|]; try exact I. apply pn_opt_wf.
     - apply pn_of_wf.
     - exact I.
@@ -360,7 +360,7 @@ Section Statements.
   Variable bi : list ident.
   Variable inh : path -> ident -> option binding.
   Variable init call : ident.
-  Variable meths : list (path * ident * bool).
+  Variable meths : list (path * option ident * (bool * bool)).
   Variable kwlike : N -> bool.
 
   Local Notation rt := (rope_tree p).
@@ -376,7 +376,7 @@ Section Statements.
 
   Lemma frag_tok t :
     in_fragment_C02 bi inh init call meths kwlike p = true -> In t (toks p) -> core t = true ->
-    in_fragment_C15 p = true /\ tok_ok bi inh rt kwlike t = true.
+    in_fragment_C15 p = true /\ tok_ok bi inh rt meths kwlike t = true.
   Proof.
     unfold in_fragment_C02, toks_ok. intros H Ht Hc.
     apply andb_prop in H as [H15 H]. apply andb_prop in H as [H _].
@@ -453,7 +453,7 @@ Section Independent.
   Variable inh : path -> ident -> option binding.
   Variable rt : rscope.
   Variable init call : ident.
-  Variable meths : list (path * ident * bool).
+  Variable meths : list (path * option ident * (bool * bool)).
   Variable kwlike : N -> bool.
   Local Notation pn := (rope_pyname_at bi inh rt init call meths kwlike).
   Local Notation occs := (rope_occurrences bi inh rt init call meths kwlike).
